@@ -127,6 +127,10 @@ func (s *Server) setSettings(settings serverSettings) {
 	if s.loader != nil {
 		s.loader.SetLimits(settings.Limits)
 	}
+	if oldSettings.Limits != settings.Limits {
+		// include trees kept for the open documents were resolved under the old limits
+		s.filesGen.Add(1)
+	}
 	if oldSettings.CLI.Path != settings.CLI.Path || oldSettings.CLI.Timeout != settings.CLI.Timeout {
 		s.reinitCLI(settings.CLI)
 	}
